@@ -74,7 +74,7 @@ def subRests (it : MIter) : List (List Entry) := it.iters.map Iter.rest
 def MIter.rest (it : MIter) : List Entry := munion it.reverse (subRests it)
 
 structure MInv (rev : Bool) (it : MIter) : Prop where
-  rev_eq : it.reverse = rev
+  rev_eq : it.reverse = rev ∨ it.iters.length ≤ 1
   subs : ∀ sub ∈ it.iters, sub.WF ∧ sub.reverse = rev
   keys_eq : it.keys = (subRests it).map headKey
   state : (it.valid = true ∧ selMin rev it.keys = some (it.prevKey, it.index))
@@ -86,8 +86,36 @@ theorem MInv.dsorted {rev : Bool} {it : MIter} (h : MInv rev it) : ∀ L ∈ sub
   have := h.subs sub hsub
   rw [← this.2]; exact Iter.dsorted_rest this.1
 
+/-- with at most one layer the direction flag of the merged iterator is never consulted
+(`NewMergedIterator` sets it to `true` for a single iterator). -/
+theorem selMin_irrel {r1 r2 : Bool} {ks : List (Option Bytes)} (h : ks.length ≤ 1) :
+    selMin r1 ks = selMin r2 ks := by
+  match ks, h with
+  | [], _ => rfl
+  | [none], _ => rfl
+  | [some k], _ => rfl
+
+theorem munion_irrel {r1 r2 : Bool} {Ls : List (List Entry)} (h : Ls.length ≤ 1) :
+    munion r1 Ls = munion r2 Ls := by
+  match Ls, h with
+  | [], _ => rfl
+  | [L], _ => simp [munion]
+
+theorem selectFrom_sel {rev : Bool} {it : MIter} (hrev : it.reverse = rev ∨ it.keys.length ≤ 1) :
+    selectFrom it.reverse it.keys 0 none = selMin rev it.keys := by
+  rw [selectFrom_zero]
+  rcases hrev with h | h
+  · rw [h]
+  · exact selMin_irrel h
+
+theorem MInv.munion_eq {rev : Bool} {it : MIter} (h : MInv rev it) :
+    munion it.reverse (subRests it) = munion rev (subRests it) := by
+  rcases h.rev_eq with h' | h'
+  · rw [h']
+  · exact munion_irrel (by simpa [subRests] using h')
+
 /-- what `selectKey` does to a state whose `keys` are the layer heads. -/
-theorem selectKey_spec {rev : Bool} {it : MIter} (hrev : it.reverse = rev)
+theorem selectKey_spec {rev : Bool} {it : MIter} (hrev : it.reverse = rev ∨ it.keys.length ≤ 1)
     (hsubs : ∀ sub ∈ it.iters, sub.WF ∧ sub.reverse = rev)
     (hkeys : it.keys = (subRests it).map headKey) (hdir : it.dir ≠ .fault) :
     let r := it.selectKey
@@ -97,8 +125,7 @@ theorem selectKey_spec {rev : Bool} {it : MIter} (hrev : it.reverse = rev)
      | some (K, x) => r.2 = true ∧ r.1.dir = .forward ∧ r.1.index = x ∧
          r.1.prevKey = (if it.dir = .soi then K else it.prevKey)) := by
   intro r
-  have hsel : selectFrom it.reverse it.keys 0 none = selMin rev it.keys := by
-    rw [hrev]; exact selectFrom_zero rev it.keys
+  have hsel : selectFrom it.reverse it.keys 0 none = selMin rev it.keys := selectFrom_sel hrev
   have hds : ∀ L ∈ subRests it, DSorted rev L := by
     intro L hL
     obtain ⟨sub, hsub, rfl⟩ := List.mem_map.mp hL
@@ -134,7 +161,7 @@ def finish (r : MIter × Bool) (d d0 : MDir) : MIter :=
 
 /-- positioning every layer with `f` (Rewind or Seek) and selecting. -/
 theorem position_spec {rev : Bool} {it : MIter} (f : Iter → Iter × Bool)
-    (hrev : it.reverse = rev) (hsubs : ∀ sub ∈ it.iters, sub.WF ∧ sub.reverse = rev)
+    (hrev : it.reverse = rev ∨ it.iters.length ≤ 1) (hsubs : ∀ sub ∈ it.iters, sub.WF ∧ sub.reverse = rev)
     (hf : ∀ sub, sub.WF → (f sub).1.WF ∧ (f sub).1.reverse = sub.reverse ∧ (f sub).2 = (f sub).1.valid)
     (d : MDir) (hd : d = .forward ∨ d = .seek) (d0 : MDir) (hd0 : d0 = .eoi ∨ d0 = .soi) :
     MInv rev (finish (positioned it f).selectKey d d0)
@@ -159,7 +186,17 @@ theorem position_spec {rev : Bool} {it : MIter} (f : Iter → Iter × Bool)
     intro s hs
     have := hf s (hsubs s hs).1
     exact keyOf_eq_headKey this.1 this.2.2
-  have hspec := selectKey_spec (it := it0) hrev hsubs0 hkeys0 (by simp [it0])
+  have hrev0 : it0.reverse = rev ∨ it0.keys.length ≤ 1 := by
+    rcases hrev with h | h
+    · exact Or.inl h
+    · exact Or.inr (by simpa [it0, rs] using h)
+  have hrevOut : ∀ (x : MIter), x.reverse = it0.reverse → x.iters = it0.iters →
+      x.reverse = rev ∨ x.iters.length ≤ 1 := by
+    intro x hx1 hx2
+    rcases hrev with h | h
+    · exact Or.inl (by rw [hx1]; exact h)
+    · exact Or.inr (by rw [hx2]; simpa [it0, rs] using h)
+  have hspec := selectKey_spec (it := it0) hrev0 hsubs0 hkeys0 (by simp [it0])
   obtain ⟨hi, hk, hr, hcase⟩ := hspec
   have hr1 : r = it0.selectKey := rfl
   cases hm : selMin rev it0.keys with
@@ -169,7 +206,7 @@ theorem position_spec {rev : Bool} {it : MIter} (f : Iter → Iter × Bool)
     have hout : out = { r.1 with dir := d0 } := by simp [out, finish, hr1, h2]
     have hsr : subRests out = subRests it0 := by rw [hout]; simp [subRests, hr1, hi]
     refine ⟨⟨?_, ?_, ?_, ?_⟩, by rw [hsr, hrests0]⟩
-    · rw [hout]; show r.1.reverse = rev; rw [hr1, hr]; exact hrev
+    · rw [hout]; exact hrevOut _ (by show r.1.reverse = _; rw [hr1, hr]) (by show r.1.iters = _; rw [hr1, hi])
     · rw [hout]; show ∀ sub ∈ r.1.iters, _; rw [hr1, hi]; exact hsubs0
     · rw [hsr, hout]; show r.1.keys = _; rw [hr1, hk]; exact hkeys0
     · right
@@ -183,7 +220,7 @@ theorem position_spec {rev : Bool} {it : MIter} (f : Iter → Iter × Bool)
     have hout : out = { r.1 with dir := d } := by simp [out, finish, hr1, h2]
     have hsr : subRests out = subRests it0 := by rw [hout]; simp [subRests, hr1, hi]
     refine ⟨⟨?_, ?_, ?_, ?_⟩, by rw [hsr, hrests0]⟩
-    · rw [hout]; show r.1.reverse = rev; rw [hr1, hr]; exact hrev
+    · rw [hout]; exact hrevOut _ (by show r.1.reverse = _; rw [hr1, hr]) (by show r.1.iters = _; rw [hr1, hi])
     · rw [hout]; show ∀ sub ∈ r.1.iters, _; rw [hr1, hi]; exact hsubs0
     · rw [hsr, hout]; show r.1.keys = _; rw [hr1, hk]; exact hkeys0
     · left
@@ -201,7 +238,7 @@ theorem selectKey_dir (it : MIter) :
   | none => rfl
   | some p => rfl
 
-theorem MIter.rewind_spec {rev : Bool} {it : MIter} (hrev : it.reverse = rev)
+theorem MIter.rewind_spec {rev : Bool} {it : MIter} (hrev : it.reverse = rev ∨ it.iters.length ≤ 1)
     (hsubs : ∀ sub ∈ it.iters, sub.WF ∧ sub.reverse = rev) (hdir : it.dir ≠ .fault) :
     MInv rev it.rewind.1 ∧ subRests it.rewind.1 = it.iters.map Iter.all := by
   have h := position_spec (it := it) Iter.rewind hrev hsubs
@@ -218,7 +255,7 @@ theorem MIter.rewind_spec {rev : Bool} {it : MIter} (hrev : it.reverse = rev)
   intro sub hsub
   exact (Iter.rewind_rest (hsubs sub hsub).1).2.1
 
-theorem MIter.seek_spec {rev : Bool} {it : MIter} (hrev : it.reverse = rev)
+theorem MIter.seek_spec {rev : Bool} {it : MIter} (hrev : it.reverse = rev ∨ it.iters.length ≤ 1)
     (hsubs : ∀ sub ∈ it.iters, sub.WF ∧ sub.reverse = rev) (hdir : it.dir ≠ .fault) (k : Bytes) :
     MInv rev (it.seek k).1
       ∧ subRests (it.seek k).1 = it.iters.map (fun sub => sub.all.dropWhile (before rev k)) := by
@@ -339,7 +376,8 @@ theorem MIter.dir_of_valid {it : MIter} (hv : it.valid = true) :
 /-- one `next()` (lower case): the selected layer is advanced, the others are untouched. -/
 theorem next1_spec {rev : Bool} {it : MIter} (h : MInv rev it) (hv : it.valid = true) :
     ∃ v r, (subRests it)[it.index]? = some ((it.prevKey, v) :: r) ∧
-      (it.next1.1).reverse = rev ∧ (∀ sub ∈ (it.next1.1).iters, sub.WF ∧ sub.reverse = rev) ∧
+      ((it.next1.1).reverse = rev ∨ (it.next1.1).iters.length ≤ 1) ∧
+      (∀ sub ∈ (it.next1.1).iters, sub.WF ∧ sub.reverse = rev) ∧
       (it.next1.1).keys = (subRests it.next1.1).map headKey ∧
       subRests it.next1.1 = (subRests it).set it.index r ∧
       (it.next1.1).prevKey = it.prevKey ∧
@@ -360,7 +398,23 @@ theorem next1_spec {rev : Bool} {it : MIter} (h : MInv rev it) (hv : it.valid = 
     rw [if_neg (by rw [hc]; simp)]
     simp only [hsub]
     rfl
-  have hrev0 : it0.reverse = rev := h.rev_eq
+  have hklen : it.keys.length = it.iters.length := by rw [h.keys_eq]; simp [subRests]
+  have hrev0 : it0.reverse = rev ∨ it0.keys.length ≤ 1 := by
+    rcases h.rev_eq with h' | h'
+    · exact Or.inl h'
+    · exact Or.inr (by simp only [it0, List.length_set]; omega)
+  have hrevOut : it0.selectKey.1.reverse = rev ∨ it0.selectKey.1.iters.length ≤ 1 := by
+    rcases h.rev_eq with h' | h'
+    · left
+      unfold MIter.selectKey
+      cases selectFrom it0.reverse it0.keys 0 none with
+      | none => exact h'
+      | some p => exact h'
+    · right
+      unfold MIter.selectKey
+      cases selectFrom it0.reverse it0.keys 0 none with
+      | none => simpa [it0] using h'
+      | some p => simpa [it0] using h'
   have hsubs0 : ∀ s ∈ it0.iters, s.WF ∧ s.reverse = rev := by
     intro s hs
     rcases List.mem_or_eq_of_mem_set hs with hs | rfl
@@ -376,7 +430,7 @@ theorem next1_spec {rev : Bool} {it : MIter} (h : MInv rev it) (hv : it.valid = 
   obtain ⟨hi, hk, hr, hcase⟩ := selectKey_spec hrev0 hsubs0 hkeys0 hdir0
   rw [hn1]
   have hsr0 : subRests it0.selectKey.1 = subRests it0 := by simp [subRests, hi]
-  refine ⟨by rw [hr]; exact hrev0, by rw [hi]; exact hsubs0, by rw [hsr0, hk]; exact hkeys0,
+  refine ⟨hrevOut, by rw [hi]; exact hsubs0, by rw [hsr0, hk]; exact hkeys0,
     by rw [hsr0]; exact hrests0, ?_, ?_⟩
   · -- prevKey is only reset from SOI
     rw [hk] at *
@@ -384,7 +438,7 @@ theorem next1_spec {rev : Bool} {it : MIter} (h : MInv rev it) (hv : it.valid = 
     | none =>
       have : it0.selectKey = ({ it0 with dir := .eoi }, false) := by
         unfold MIter.selectKey
-        rw [hrev0, selectFrom_zero, hm]
+        rw [selectFrom_sel hrev0, hm]
       rw [this]
     | some p =>
       rw [hm] at hcase
@@ -515,7 +569,7 @@ theorem sumLen_le_size (it : MIter) : sumLen (subRests it) ≤ it.size := by
 theorem MInv.rest_valid {rev : Bool} {it : MIter} (h : MInv rev it) :
     it.valid = true ↔ it.rest ≠ [] := by
   unfold MIter.rest
-  rw [h.rev_eq]
+  rw [h.munion_eq]
   constructor
   · intro hv
     obtain ⟨v, r, _, _, _, _, hm, _⟩ := h.vstate hv
@@ -533,7 +587,7 @@ theorem mergedCursor (rev : Bool) : Cursor mergedOps (MInv rev) MIter.rest where
     obtain ⟨v, r', sub, hsub, hsr, hidx, hm, _⟩ := h.vstate hv
     have he : e = (it.prevKey, v) := by
       have : it.rest = (it.prevKey, v) :: munion rev ((subRests it).map (dropKey it.prevKey)) := by
-        unfold MIter.rest; rw [h.rev_eq]; exact hm
+        unfold MIter.rest; rw [h.munion_eq]; exact hm
       rw [hr] at this
       exact (List.cons.inj this).1
     subst he
@@ -556,9 +610,9 @@ theorem mergedCursor (rev : Bool) : Cursor mergedOps (MInv rev) MIter.rest where
     refine ⟨hi, ?_⟩
     show MIter.rest (MIter.nextLoop (it.size + 2) it).1 = r
     unfold MIter.rest
-    rw [hi.rev_eq, hrs]
+    rw [hi.munion_eq, hrs]
     have : it.rest = (it.prevKey, v) :: munion rev ((subRests it).map (dropKey it.prevKey)) := by
-      unfold MIter.rest; rw [h.rev_eq]; exact hm
+      unfold MIter.rest; rw [h.munion_eq]; exact hm
     rw [hr] at this
     exact (List.cons.inj this).2.symm
 
@@ -566,17 +620,21 @@ theorem mergedCursor (rev : Bool) : Cursor mergedOps (MInv rev) MIter.rest where
 def mergedAll (layers : List Map) (start : Bytes) (end_ : Option Bytes) (rev : Bool) : List Entry :=
   munion rev (layers.map (fun m => ordered rev (range m start (effEnd start end_))))
 
-theorem mergedIter_reverse {layers : List Map} (h2 : 2 ≤ layers.length) (start : Bytes) (end_ : Option Bytes)
-    (rev : Bool) : (mergedIter layers start end_ rev).reverse = rev := by
+theorem mergedIter_reverse (layers : List Map) (start : Bytes) (end_ : Option Bytes) (rev : Bool) :
+    (mergedIter layers start end_ rev).reverse = rev ∨ (mergedIter layers start end_ rev).iters.length ≤ 1 := by
   unfold mergedIter MIter.mk'
-  match layers, h2 with
-  | a :: b :: rest, _ => rfl
+  match layers with
+  | [] => exact Or.inr (by simp)
+  | [_] => exact Or.inr (by simp)
+  | a :: b :: rest => exact Or.inl rfl
 
-theorem mergedRangeCursor {layers : List Map} (hs : ∀ m ∈ layers, Sorted m) (h2 : 2 ≤ layers.length)
+/-- the merged iterator over any number of layers (also the single-layer case, where
+`NewMergedIterator` defaults its direction flag to `true`) is a cursor over the union. -/
+theorem mergedRangeCursor {layers : List Map} (hs : ∀ m ∈ layers, Sorted m)
     (start : Bytes) (end_ : Option Bytes) (rev : Bool) :
     RangeCursor mergedOps (MInv rev) MIter.rest (mergedIter layers start end_ rev)
       (mergedAll layers start end_ rev) rev := by
-  have hrev := mergedIter_reverse h2 start end_ rev
+  have hrev := mergedIter_reverse layers start end_ rev
   have hsubs : ∀ sub ∈ (mergedIter layers start end_ rev).iters, sub.WF ∧ sub.reverse = rev := by
     intro sub hsub
     simp only [mergedIter, MIter.mk', List.mem_map] at hsub
@@ -594,13 +652,13 @@ theorem mergedRangeCursor {layers : List Map} (hs : ∀ m ∈ layers, Sorted m) 
     refine ⟨hi, ?_⟩
     show MIter.rest (MIter.rewind (mergedIter layers start end_ rev)).1 = _
     unfold MIter.rest mergedAll
-    rw [hi.rev_eq, hr, halls]
+    rw [hi.munion_eq, hr, halls]
   · intro k
     obtain ⟨hi, hr⟩ := MIter.seek_spec hrev hsubs hdir k
     refine ⟨hi, ?_⟩
     show MIter.rest (MIter.seek (mergedIter layers start end_ rev) k).1 = _
     unfold MIter.rest mergedAll
-    rw [hi.rev_eq, hr, ← munion_dropWhile, ← halls, List.map_map]
+    rw [hi.munion_eq, hr, ← munion_dropWhile, ← halls, List.map_map]
     rfl
 
 end C07
